@@ -29,8 +29,11 @@ func (f *follower) release() {}
 func (f *follower) resetTimer() {
 	if yes, _ := f.canStartElection(); yes {
 		f.electionAborted = false
-		f.timer.reset(f.rtime.duration(f.hbTimeout))
 	}
+	// a node that cannot start an election needs the timer too:
+	// its expiry is what makes the node forget a leader that has
+	// gone silent, without which it refuses every vote request
+	f.timer.reset(f.rtime.duration(f.hbTimeout))
 }
 
 func (f *follower) onTimeout() {
